@@ -394,6 +394,19 @@ class Inliner:
                 tn = ast.Name(id=t, ctx=ast.Load())
                 test = ast.copy_location(ast.UnaryOp(op=ast.Not(), operand=tn), s.test) if neg else tn
                 return r + [ast.copy_location(ast.If(test=test, body=s.body, orelse=s.orelse), s)]
+        if isinstance(s, ast.If):
+            spot = self._first_evaluated_helper_call(s.test, caller_cls, bases, stack)
+            if spot is not None:
+                parent, field, idx, call = spot
+                t = fresh()
+                r = try_call(call, t)
+                if r is not None:
+                    tn = ast.Name(id=t, ctx=ast.Load())
+                    if idx is None:
+                        setattr(parent, field, tn)
+                    else:
+                        getattr(parent, field)[idx] = tn
+                    return r + self._rewrite_stmt(s, ctx)
         if isinstance(s, ast.For):
             t = fresh("_iter")
             r = try_call(s.iter, t)
